@@ -89,4 +89,11 @@ theorem wire_view_bsdiffHeader (m : WMsg) (h : WF m) (hnd : (m.map Prod.fst).Nod
   rw [proto_roundtrip _ (WF_canon m h), Option.map_some]
   simp only [asBsdiffHeader, getVarint_canon m hnd]
 
+/-- An unknown group (deprecated wire type 3) in front of a record is skipped whole — whatever well-formed fields it
+    holds — and the record behind it is read as if the group were not there (forward compatibility: a newer writer
+    may add fields the reader does not know). -/
+theorem group_is_skipped (f : Nat) (hf1 : 1 ≤ f) (hf2 : f < maxField) (inner m : WMsg) (hi : WF inner) (hm : WF m) :
+    unmarshal (uvarint (f * 8 + 3) ++ (encode inner ++ (uvarint (f * 8 + 4) ++ encode m))) = some m := by
+  exact unmarshal_group f hf1 hf2 inner m hi hm
+
 end Wharf.C13Proto
